@@ -18,8 +18,14 @@ VERIF_DIR = os.path.dirname(os.path.dirname(os.path.abspath(__file__)))
 ADDR_NO_RANDOMIZE = 0x0040000
 
 
+_repo_dir = None
+
+
 def repo_dir() -> str:
-    return os.path.realpath(os.environ.get("VERIF_REPO", "/repo"))
+    global _repo_dir
+    if _repo_dir is None:  # cached: simulated processes replace os.path.realpath
+        _repo_dir = os.path.realpath(os.environ.get("VERIF_REPO", "/repo"))
+    return _repo_dir
 
 
 def reexec_if_needed(script: str, argv: list[str]) -> None:
